@@ -41,8 +41,14 @@ TightNamed(id) == ConvShape(id, TRUE, FALSE, FALSE, 1, FALSE, FALSE, FALSE, FALS
 Posts == {<< >>, <<Decl("post", "func", FALSE, FALSE, FALSE)>>, <<Medium("c2", FALSE)>>, <<Plain("p2")>>, <<Tight("c2")>>, <<TightNamed("c2")>>,
           <<WithNm(Medium("c2", FALSE), "prefix")>>}
 IsConv(q) == q # << >> /\ q[1].k = "intf" /\ (q[1].named \/ q[1].marked)
-InitAccept ==
-  /\ \E named \in B, doc \in B, gen \in B, short \in B, after \in B, gap \in {0, 1}, pre \in Pres :
+\* a dozen converter interfaces, ROT of those whose names sort last standing first in the file (the tool visits
+\* interfaces in name order, whatever their order in the file), loosely or tightly packed
+DozenIds == <<"k01", "k02", "k03", "k04", "k05", "k06", "k07", "k08", "k09", "k10", "k11", "k12">>
+Dozen(tight, rot) ==
+  [j \in 1..12 |-> LET id == DozenIds[((j + 11 - rot) % 12) + 1] IN
+                   IF tight THEN ConvShape(id, FALSE, FALSE, FALSE, 1, FALSE, FALSE, FALSE, FALSE, FALSE, 1) ELSE Medium(id, FALSE)]
+InitAcceptOne ==
+     \E named \in B, doc \in B, gen \in B, short \in B, after \in B, gap \in {0, 1}, pre \in Pres :
      \E post \in {q \in Posts : q = << >> \/ ~(named /\ q[1].named)} :      \* only one interface can be called Convergen
        \/ \E nmeth \in {1, 2}, mdoc \in B, trail \in B :
             layout = Lay(pre \o <<ConvShape("c1", named, doc, gen, nmeth, short, FALSE, mdoc, trail, after, gap)>> \o post,
@@ -58,6 +64,9 @@ InitAccept ==
                             FALSE, "gobuild", "none", "none")
        \/ layout = Lay(pre \o <<ConvShape("c1", named, doc, gen, 1, short, TRUE, FALSE, FALSE, after, gap)>> \o post,
                        FALSE, "gobuild", "none", "none")
+InitAccept ==
+  /\ \/ InitAcceptOne
+     \/ \E tight \in B, rot \in {0, 1, 2, 3, 11} : layout = Lay(Dozen(tight, rot), FALSE, "gobuild", "none", "none")
   /\ Rest
 
 \* ---- C11: declarations and comments around a converter interface x file-level attributes
@@ -121,6 +130,8 @@ InitSelect ==
               b == WithNm(Medium("i2", FALSE), "recvsame")
               two == IF secondFirst THEN <<b, a>> ELSE <<a, b>> IN
           layout = LayE(two \o (IF tail THEN <<Plain("i3")>> ELSE << >>), TRUE, "gobuild", "used", "none", "none")
+     \* a dozen converter interfaces, file order different from name order
+     \/ \E tight \in B, rot \in {0, 2, 11} : layout = LayE(Dozen(tight, rot), TRUE, "gobuild", "used", "none", "none")
      \* a converter interface written in the alias form (type X = interface {...}): an interface declared in the
      \* input file like any other - marked or called Convergen, alone or next to an ordinary converter interface
      \/ \E kind \in {"named", "marked"}, other \in {"none", "named", "marked", "plain"}, aliasFirst \in B :
